@@ -88,6 +88,7 @@ pub fn world_c18(tier: Tier, world_no: u64, mut t: Tape) -> WorldReport {
                 max_txs: 3,
                 force_min_utxo: None,
                 rich_directives: true,
+                optional_bias: false,
             },
         );
         (format!("generated-{world_no}"), p.source(), false)
